@@ -5,6 +5,7 @@ import Holpy.C09.ProofsAbsSound
 import Holpy.C09.ProofsSem3
 import Holpy.C09.ProofsTerm
 import Holpy.C09.ProofsMillerComplete
+import Holpy.C09.ProofsFuelMono
 /-
 C09 — property theorems (statements only; helper lemmas and the specification vocabulary
 `Ext`, `Below`, `isFO`, `SigmaOK`, `applyInst` are in Proofs.lean).
@@ -289,6 +290,20 @@ example : Safe [] Ex.patM ∧ Dom MInst.empty [] ∧ 2 * termSize Ex.patM ≤ 10
   ⟨by simp [Ex.patM, Safe, headOf], fun m hm => by simp [MInst.empty] at hm, by decide,
    by simp [Ex.patHO, Safe, headOf, svarNamesOf, Ex.plus], by decide⟩
 
+
+
+/-- The answer does not depend on the fuel: once the model answers anything other than `fuel`
+(an instantiation or an exception), it gives the same answer with any larger fuel — for every
+pattern, all branches.  With `match_fuel_suffices` / `fo_match_terminates`: on the patterns covered
+there the answer is the same for EVERY fuel from `2 * size(pattern)` on, i.e. it is the answer of
+the unbounded Python recursion. -/
+theorem match_fuel_independent (bf n d : Nat) (pat t : Term) (inst : MInst)
+    (h : firstOrderMatch bf n pat t inst ≠ .error .fuel) :
+    firstOrderMatch bf (n + d) pat t inst = firstOrderMatch bf n pat t inst :=
+  matchAux_fuel_le bf d n [] inst pat t h
+
+example : firstOrderMatch 10 10 Ex.pat Ex.tgt Ex.seed ≠ .error .fuel ∧
+    firstOrderMatch 10 (10 + 5) Ex.pat Ex.tgt Ex.seed = .ok Ex.res := ⟨by rw [show firstOrderMatch 10 10 Ex.pat Ex.tgt Ex.seed = .ok Ex.res from rfl]; simp, rfl⟩
 
 /-! ### completeness beyond the first-order class -/
 
